@@ -110,3 +110,8 @@
 (assert (forall ((A (Array Int Val)) (i Int) (k Str)) (!
   (=> (>= i 2) (= (lastIdx A i k) (ite (= (vstr (select A (- i 2))) k) (- i 2) (lastIdx A (- i 2) k))))
   :pattern ((lastIdx A i k)))))
+
+; ---- objects: the values of a map listed along an enumeration of its keys
+(declare-fun composeOV ((Array Int Str) (Array Str Val)) (Array Int Val))
+(assert (forall ((o (Array Int Str)) (V (Array Str Val)) (i Int)) (! (= (select (composeOV o V) i) (select V (select o i))) :pattern ((select (composeOV o V) i)))))
+(define-fun sel ((A (Array Int Val)) (i Int)) Val (select A i))
